@@ -34,7 +34,7 @@ def CallPayloadUnique (tbl : List SealRec) : Prop :=
 /-- a cache entry stands for a sealed call token, repeats its contents and does not outlive it -/
 def EntryOk (tbl : List SealRec) (key : Bytes) (ttl : Int) (e : CacheEntry) : Prop :=
   ∃ r ∈ tbl, ∃ d who, r.key = normKey key ∧ r.pt = .call d ∧ e.key = cacheKey d.callId who ∧
-    e.schema = d.schema ∧ e.streamId = d.streamId ∧ e.exp ≤ tokenExpiry ttl d.created
+    e.schema = d.schema ∧ e.streamId = d.streamId ∧ e.inputSchema = d.inputSchema ∧ e.exp ≤ tokenExpiry ttl d.created
 
 def CacheOk (tbl : List SealRec) (key : Bytes) (ttl : Int) (c : List CacheEntry) : Prop :=
   ∀ e ∈ c, EntryOk tbl key ttl e
@@ -52,7 +52,7 @@ theorem cacheKey_inj {x y : Bytes} {i j : Ident} (hx : NoNul x) (hy : NoNul y)
 
 theorem cacheGet_some {max : Int} {entries : List CacheEntry} {now : Int} {k : Bytes} {r : Resolved}
     (h : (cacheGet max entries now k).1 = some r) :
-    ∃ e ∈ entries, e.key = k ∧ ¬ now > e.exp ∧ r = ⟨e.schema, e.streamId⟩ := by
+    ∃ e ∈ entries, e.key = k ∧ ¬ now > e.exp ∧ r = e.resolved := by
   unfold cacheGet at h
   split at h
   · cases h
@@ -87,7 +87,7 @@ theorem cacheGet_sub {max : Int} {entries : List CacheEntry} {now : Int} {k : By
 
 theorem cachePut_mem {max ttl : Int} {entries : List CacheEntry} {now : Int} {k : Bytes} {r : Resolved}
     {tex : Int} : ∀ e ∈ cachePut max ttl entries now k r tex,
-      e ∈ entries ∨ (e.key = k ∧ e.schema = r.schema ∧ e.streamId = r.streamId ∧ e.exp ≤ tex) := by
+      e ∈ entries ∨ (e.key = k ∧ e.schema = r.schema ∧ e.streamId = r.streamId ∧ e.inputSchema = r.inputSchema ∧ e.exp ≤ tex) := by
   intro e he
   unfold cachePut at he
   split at he
@@ -97,7 +97,7 @@ theorem cachePut_mem {max ttl : Int} {entries : List CacheEntry} {now : Int} {k 
     rcases he' with he' | he'
     · right
       subst he'
-      refine ⟨rfl, rfl, rfl, ?_⟩
+      refine ⟨rfl, rfl, rfl, rfl, ?_⟩
       simp only
       split
       · exact Int.le_refl _
@@ -147,7 +147,7 @@ theorem resolveCall_honest (tbl : List SealRec) (ht : TableOk tbl) (inst : Inst)
     (hcur : NoNul cur.callId) (t : Bytes) (k : CallData)
     (hm : Minted tbl inst.key callVersion (callAad who) t (.call k)) (hid : k.callId = cur.callId) :
     (resolveCall tbl inst now cur (some t) who).2 =
-      if tooOld now inst.ttl k.created then .error .expired else .ok ⟨k.schema, k.streamId⟩ := by
+      if tooOld now inst.ttl k.created then .error .expired else .ok k.resolved := by
   obtain ⟨hu, hn, hp⟩ := ht
   have hopen := openToken_of_minted hu hm
   obtain ⟨rk, hrk, hkk, _, hpk, htok, _, _⟩ := hm
@@ -159,7 +159,7 @@ theorem resolveCall_honest (tbl : List SealRec) (ht : TableOk tbl) (inst : Inst)
       -- hit: the entry stands for a call record with the same call id, hence the same contents
       have hg1 : (cacheGet inst.cacheMax inst.cache now (cacheKey cur.callId who)).1 = some r := by rw [hg]
       obtain ⟨e, he, hek, hexp, hr⟩ := cacheGet_some hg1
-      obtain ⟨r', hr', d', who', hk', hp', hkey', hs', hst', hx'⟩ := hc e he
+      obtain ⟨r', hr', d', who', hk', hp', hkey', hs', hst', hin', hx'⟩ := hc e he
       have hd'n : NoNul d'.callId := (hn r' hr').2 d' hp'
       have hidd : d'.callId = cur.callId := cacheKey_inj hd'n hcur (by rw [← hkey', hek])
       have hdk : d' = k := hp r' hr' rk hrk d' k hp' hpk (by rw [hk', hkk]) (by rw [hidd, hid])
@@ -169,7 +169,9 @@ theorem resolveCall_honest (tbl : List SealRec) (ht : TableOk tbl) (inst : Inst)
         simp only [decide_eq_false_iff_not]
         omega
       simp only [hnot, Bool.false_eq_true, if_false]
-      rw [hr, hs', hst']
+      have : e.resolved = d'.resolved := by
+        unfold CacheEntry.resolved CallData.resolved; rw [hs', hst', hin']
+      rw [hr, this]
     | none =>
       simp only
       cases t with
@@ -297,7 +299,7 @@ theorem resolveCall_ok_in_date (tbl : List SealRec) (hn : CallIdsOk tbl) (inst :
     (callTok : Option Bytes) (who : Ident) (c : List CacheEntry) (rc : Resolved)
     (h : resolveCall tbl inst now cur callTok who = (c, .ok rc)) :
     ∃ rk ∈ tbl, ∃ k, rk.key = normKey inst.key ∧ rk.pt = .call k ∧ k.callId = cur.callId ∧
-      tooOld now inst.ttl k.created = false ∧ rc = ⟨k.schema, k.streamId⟩ := by
+      tooOld now inst.ttl k.created = false ∧ rc = k.resolved := by
   cases hg : (cacheGet inst.cacheMax inst.cache now (cacheKey cur.callId who)).1 with
   | none =>
     obtain ⟨t, k, _, hm, hid, hage, hrc⟩ := resolveCall_miss_ok h hg
@@ -305,7 +307,7 @@ theorem resolveCall_ok_in_date (tbl : List SealRec) (hn : CallIdsOk tbl) (inst :
     exact ⟨rk, hrk, k, hk, hp, hid, hage, hrc⟩
   | some r =>
     obtain ⟨e, he, hek, hexp, hr⟩ := cacheGet_some hg
-    obtain ⟨r', hr', d', who', hk', hp', hkey', hs', hst', hx'⟩ := hc e he
+    obtain ⟨r', hr', d', who', hk', hp', hkey', hs', hst', hin', hx'⟩ := hc e he
     have hd'n : NoNul d'.callId := (hn r' hr').2 d' hp'
     have hidd : d'.callId = cur.callId := cacheKey_inj hd'n hcur (by rw [← hkey', hek])
     refine ⟨r', hr', d', hk', hp', hidd, ?_, ?_⟩
@@ -320,7 +322,9 @@ theorem resolveCall_ok_in_date (tbl : List SealRec) (hn : CallIdsOk tbl) (inst :
         simp only at hg
         subst hg
         simp only [Prod.mk.injEq, Except.ok.injEq] at h
-        rw [← h.2, hr, hs', hst']
+        have : e.resolved = d'.resolved := by
+          unfold CacheEntry.resolved CallData.resolved; rw [hs', hst', hin']
+        rw [← h.2, hr, this]
 
 /-- **ttl_enforced_call** (the cache never extends a call token's lifetime): whenever a
 continuation is accepted, runs any callback or mints anything — through a cache hit or not —
@@ -491,9 +495,9 @@ theorem resolveCall_cacheOk (tbl : List SealRec) (inst : Inst)
                     · exact absurd hx hid
                   obtain ⟨r, hr, hk, _, hp, _⟩ := openToken_ok ho
                   intro e he
-                  rcases cachePut_mem e he with hold | ⟨h1, h2, h3, h4⟩
+                  rcases cachePut_mem e he with hold | ⟨h1, h2, h3, h5, h4⟩
                   · exact hsub e hold
-                  · exact ⟨r, hr, d, who, hk, hp, by rw [h1, hid'], h2, h3, h4⟩
+                  · exact ⟨r, hr, d, who, hk, hp, by rw [h1, hid'], h2, h3, h5, h4⟩
 
 theorem exchange_cacheOk (tbl : List SealRec) (inst : Inst)
     (hc : CacheOk tbl inst.key inst.ttl inst.cache) (req : Req) :
@@ -589,12 +593,12 @@ theorem applyInit_inv (w : World) (iname : String) (who : Ident) (method : Bytes
               obtain ⟨n2, c2, hs2, _⟩ := recordSeal_shape h2
               apply inv_update hi t2 ht2 hm
               intro en hen
-              rcases cachePut_mem en hen with hold | ⟨k1, k2, k3, k4⟩
+              rcases cachePut_mem en hen with hold | ⟨k1, k2, k3, k5, k4⟩
               · exact hc0 en hold
               · -- the call record just sealed
                 -- cd and kd come from initStream: same call id
                 have hcall : cd.callId = kd.callId := initStream_mint_callId hmint
-                refine ⟨⟨normKey inst.key, n2, callAad who, c2, .call kd⟩, by rw [hs2]; simp, kd, who, rfl, rfl, ?_, k2, k3, k4⟩
+                refine ⟨⟨normKey inst.key, n2, callAad who, c2, .call kd⟩, by rw [hs2]; simp, kd, who, rfl, rfl, ?_, k2, k3, k5, k4⟩
                 rw [k1, hcall]
 
 theorem applyCont_inv (w : World) (iname : String) (req : Req) (env : Option (Bytes × Int)) (hi : Inv w) :
@@ -727,7 +731,7 @@ theorem reachable_cache_transparent (cs : List Cmd) (n : String) (inst : Inst)
 
 /-- one instance (TTL 60 s, cache of 8), one `/init` by the anonymous caller at t = 100 s that
 minted the C12 example tokens -/
-def exInst8 : Inst := ⟨exKey, 60000, 8, [], false, [], [], true, true, [⟨[109], .exchange, .exchange⟩]⟩
+def exInst8 : Inst := ⟨exKey, 60000, 8, [], false, [], [], true, true, [⟨[109], .exchange, .exchange, []⟩]⟩
 def exCmds : List Cmd :=
   [.inst "i" exInst8,
    .init "i" anon [109] 5 none 100000 (some ⟨[65], [83], [], 100, 100, exCursorTok, exCallTok⟩)]
@@ -739,7 +743,7 @@ example : exWarm.cache.length = 1 ∧ exWorld.sealed.length = 2 := by decide
 
 -- an honest continuation at t = 130 s: accepted through the hit, and identically with the cache off
 example : (exchange exWorld.sealed exWarm exReq).2.err = none ∧
-    (cacheGet exWarm.cacheMax exWarm.cache exReq.now (cacheKey [65] anon)).1 = some ⟨[], [83]⟩ ∧
+    (cacheGet exWarm.cacheMax exWarm.cache exReq.now (cacheKey [65] anon)).1 = some ⟨[], [83], []⟩ ∧
     (exchange exWorld.sealed exWarm exReq).2 =
       (exchange exWorld.sealed { exWarm with cache := [], cacheMax := 0 } exReq).2 := by decide
 
@@ -754,9 +758,9 @@ def exLateCursor : SealRec := ⟨exKey, List.replicate 24 3, cursorAad anon, exC
 /-- base64 text of `06 ‖ 03×24 ‖ 09×16` -/
 def exLateTok : Bytes := [66, 103, 77, 68, 65, 119, 77, 68, 65, 119, 77, 68, 65, 119, 77, 68, 65, 119, 77, 68, 65, 119, 77, 68, 65, 119, 77, 68, 65, 119, 77, 68, 65, 119, 107, 74, 67, 81, 107, 74, 67, 81, 107, 74, 67, 81, 107, 74, 67, 81, 107, 74, 67, 81, 107, 61]
 example :
-    (exchange (exLateCursor :: exWorld.sealed) exWarm ⟨anon, [109], some exLateTok, some exCallTok, false, none, 160001⟩).2 =
+    (exchange (exLateCursor :: exWorld.sealed) exWarm ⟨anon, [109], some exLateTok, some exCallTok, false, none, 160001, []⟩).2 =
       refuse 400 .expired ∧
-    (exchange (exLateCursor :: exWorld.sealed) exWarm ⟨anon, [109], some exLateTok, some exCallTok, false, none, 160000⟩).2.err = none := by
+    (exchange (exLateCursor :: exWorld.sealed) exWarm ⟨anon, [109], some exLateTok, some exCallTok, false, none, 160000, []⟩).2.err = none := by
   decide
 
 -- the honesty hypothesis is met by the example request
